@@ -352,3 +352,4 @@ for _p in ("C01", "C16"):
     H(_p, "html/document", "VxH_C01_draw_inline_levels", reach=["laid-out", "drawn"], bounds="<p><x-i><x-c></x-c></x-i></p>: x-i display in 8 values (inline-block / -flex / -grid / -table, inline, block, flex, grid) x 5 stacking situations (none, relative, opacity, relative + z-index, float); layout with the VxAhem font model, painting on the recording canvas", quick={"maxsteps": 200000000, "shards": 6})
 for _p in ("C15", "C14"):
     H(_p, "html/document", "VxH_C15_repaint_page", reach=["laid-out", "drawn"], bounds="one page with marks in {none, crop, cross, crop cross}, bleed 0 / 10px, page background or not; painted three times. The crop / cross marks are drawn through text/template, which the engine cannot execute: those 12 inputs are run natively only", native_fallback=["unsupported"], quick={"maxsteps": 200000000})
+H("C02", "html/layout", "VxH_C02_footnotes", reach=["laid-out", "several-pages"], bounds="a paragraph with 2..4 (thorough 5) footnotes (float: footnote), on one line or one per line, @footnote max-height in 7 values (2px .. 40px, none), 100px pages; VxAhem font model", quick={"maxsteps": 300000000, "shards": 6})
